@@ -110,11 +110,23 @@ theorem WInv.congr {s s' : State} {w : Worker} (hb : s'.blocks = s.blocks) (hq :
 theorem DataInv.congr {s s' : State} (h : DataInv s) (hb : s'.blocks = s.blocks) (hc : s'.cur = s.cur)
     (hq : s'.queue = s.queue) (ho : s'.outRev = s.outRev) (hr : s'.readPos = s.readPos) (hp : s'.directPos = s.directPos)
     (hw : s'.workers = s.workers) (hf : s'.threadsFree = s.threadsFree) : DataInv s' := by
-  cases s; cases s'
-  simp only at hb hc hq ho hr hp hw hf
-  subst hb hc hq ho hr hp hw hf
-  exact ⟨h.wf, h.curLe, h.lenLe, h.consec, h.good, h.deliv, h.posLe, h.readLe, h.fin, h.wk, h.distinct, h.free,
-         h.freeNodup, h.dirLe, h.dirQ⟩
+  have e1 : ∀ j, blk s' j = blk s j := fun j => by simp [blk, hb]
+  have e2 : ∀ j, dataLen s' j = dataLen s j := fun j => by simp [dataLen, e1]
+  have eh : hd s' = hd s := by simp [hd, hc, hq]
+  have ep : partialOut s' = partialOut s := by simp only [partialOut, hq, hr, hp, hc, e1]
+  have ed : s'.delivered = s.delivered := by simp [State.delivered, ho]
+  have eg : ∀ j, getW s' j = getW s j := fun j => by simp [getW, hw]
+  refine { wf := by rw [hb]; exact h.wf, curLe := by rw [hc, hb]; exact h.curLe, lenLe := by rw [hc, hq]; exact h.lenLe,
+           consec := by rw [eh, hq]; exact h.consec, good := by intro j hj; rw [eh] at hj; rw [e1]; exact h.good j hj,
+           deliv := by rw [ed, eh, ep, hb]; exact h.deliv,
+           posLe := by intro o ho'; rw [hq] at ho'; rw [e2]; exact h.posLe o ho',
+           readLe := by rw [hq, hr]; exact h.readLe,
+           fin := by intro o ho' hfin; rw [hq] at ho'; rw [e2, e1]; exact h.fin o ho' hfin,
+           wk := by intro i hi; rw [hw] at hi; rw [eg]; exact WInv.congr (s := s) (s' := s') hb hq (h.wk i hi),
+           distinct := by intro i j hi hj; rw [hw] at hi hj; simp only [eg]; exact h.distinct i j hi hj,
+           free := by intro i hi; rw [hf] at hi; rw [hw, eg]; exact h.free i hi,
+           freeNodup := by rw [hf]; exact h.freeNodup,
+           dirLe := by rw [hp, hc, e2]; exact h.dirLe, dirQ := by rw [hp, hq]; exact h.dirQ }
 
 /-- A step that leaves Blocks, cursor, queue, output and read positions alone and only replaces worker `i`. -/
 theorem DataInv.setW {s : State} (h : DataInv s) (i : Nat) (hi : i < s.workers.length) (w : Worker)
